@@ -60,8 +60,14 @@ theorem reversed_canonical (env : Env) (name : String) (cop : COp) (hc : cop ≠
       rw [toList_relString]; simpa using not_mem_relText rel ',' (by decide) (by decide)
     have hbar : (".".intercalate (rel.map toString)).toList.contains '|' = false := by
       rw [toList_relString]; simpa using not_mem_relText rel '|' (by decide) (by decide)
+    have hkw : ((".".intercalate (rel.map toString)).toList == ['e', 'm', 'p', 't', 'y', '>']) = false := by
+      rw [toList_relString]
+      apply beq_false_of_ne
+      intro e
+      have : 'e' ∈ relText rel := by rw [e]; simp
+      exact not_mem_relText rel 'e' (by decide) (by decide) this
     simp only [Bool.not_true, Bool.false_or, hn, Bool.not_true, Bool.false_eq_true, if_false, Bool.and_false,
-      hcomma, hbar, Bool.or_self]
+      hcomma, hbar, Bool.or_self, hkw]
     have h1 : (MOp.ofCOp cop == MOp.in_ || MOp.ofCOp cop == MOp.notIn) = false := by cases cop <;> rfl
     have h2 : (MOp.ofCOp cop != MOp.compat) = true := by cases cop <;> first | rfl | exact absurd rfl hc
     simp only [h1, Bool.false_eq_true, if_false, h2, Bool.true_and]
